@@ -18,6 +18,7 @@ import shutil
 import subprocess
 import sys
 import tarfile
+import zipfile
 
 from kernel import core, bfg, proj
 
@@ -254,6 +255,25 @@ def _shard(arg):
                     problems.append('archive member outside the project prefix: %r' % n)
                 elif len(parts) > 1 and t.getmember(n).isfile():
                     members.add(parts[1])
+        # every other archive format, and the `dist` alias, must hold the same members
+        for goal, an in (('dist-bzip2', 'dproj-1.0.tar.bz2'), ('dist-zip', 'dproj-1.0.zip'),
+                         ('dist', 'dproj-1.0.tar.gz')):
+            ap = os.path.join(pr.bld, an)
+            if os.path.exists(ap):
+                os.remove(ap)
+            rc, out, recs = pr.run([goal])
+            if rc != 0 or not os.path.exists(ap):
+                problems.append('%s fails: %s' % (goal, out[-200:]))
+                continue
+            if an.endswith('.zip'):
+                with zipfile.ZipFile(ap) as z:
+                    other = {n.split('/', 1)[1] for n in z.namelist() if '/' in n and not n.endswith('/')}
+            else:
+                with tarfile.open(ap) as t:
+                    other = {m.name.split('/', 1)[1] for m in t.getmembers() if m.isfile() and '/' in m.name}
+            if other != members:
+                problems.append('%s holds different members than dist-gzip: missing %r, additional %r'
+                                % (goal, sorted(members - other)[:5], sorted(other - members)[:5]))
         # what the build reads from srcdir (full build of everything that has a rule)
         rc, out, brecs = pr.run(['all'], keep_going=True)
         read = set()
